@@ -576,16 +576,67 @@ def _tags(case, ev, info):
     forms = [t['rx']['form'] for t in case['terms']] + [op[1]['form'] for op in case['ops'] if op[0] == 'reaction']
     parts = [t[k]['form'] for t in case['terms'] for k in ('surf', 'gas')] + \
             [op[1]['form'] for op in case['ops'] if op[0] in ('surf', 'gas')]
-    tags = {'kind': case['kind'], 'src': case.get('src', 'replay'), 'float_rx': 'float' in forms,
-            'float_part': any(f in ('float', 'default') for f in parts), 'notes': case.get('notes') is not None}
-    if ev is not None:
-        tags['ev'] = ev['ev']
-        if ev['ev'] == 'float':
-            tags['role'] = ev['role']
-            tags['zero'] = ev['val'][0] == 0
+    # number: some part of the object was given as a number (or omitted, which the library reads as 0.)
+    tags = {'kind': case['kind'], 'number': 'float' in forms or any(f in ('float', 'default') for f in parts),
+            'number_rx': 'float' in forms}
+    if ev is not None and ev['ev'] == 'float':
+        tags['role'] = ev['role']
+    if ev is not None and ev['ev'] == 'construct':
+        tags['notes'] = case.get('notes') is not None
     if info and 'exc' in info:
         tags['exc'] = info['exc']
+        if "'NoneType' and 'str'" in info.get('msg', ''):
+            tags['why'] = 'unnamed_species'
     return tags
+
+
+def _antecedents(events, acc):
+    """coverage accounting only (no judgement): how often the antecedent of each conditional clause of
+    Trace_Lsr.tla was true, following the same `st.pend` bookkeeping as the trace specification"""
+    has, pend, tconst, lastT = False, 'none', False, None
+    for e in events:
+        k = e['ev']
+        if k == 'construct':
+            has, pend, tconst, lastT = False, 'none', False, None
+        elif k == 'eval':
+            good = e['ok'] and e['fin']
+            if good:
+                acc['Relation'] = acc.get('Relation', 0) + 1
+                same = e['tconst'] and tconst
+                if has and pend == 'none' and same:
+                    acc['TIndependent'] = acc.get('TIndependent', 0) + 1
+                    if e['T'] != lastT:
+                        acc['TIndependent(other T)'] = acc.get('TIndependent(other T)', 0) + 1
+                if has and pend == 'slope' and same:
+                    acc['LinearSlope'] = acc.get('LinearSlope', 0) + 1
+                if has and pend == 'intercept' and same:
+                    acc['LinearIcpt'] = acc.get('LinearIcpt', 0) + 1
+                if has and pend == 'roundtrip' and (same or e['T'] == lastT):
+                    acc['RoundTripValue'] = acc.get('RoundTripValue', 0) + 1
+                if not e['tconst']:
+                    acc['eval of a T-dependent object'] = acc.get('eval of a T-dependent object', 0) + 1
+                has, pend, tconst, lastT = True, 'none', e['tconst'], e['T']
+            else:
+                has, pend = False, 'none'
+        elif k == 'set':
+            if not e['ok']:
+                has = False
+            elif e['attr'] in ('slope', 'slope_at'):
+                pend = 'slope' if pend == 'none' else 'mixed'
+            elif e['attr'] == 'intercept':
+                pend = 'intercept' if pend == 'none' else 'mixed'
+            else:
+                pend = 'mixed'
+        elif k == 'roundtrip':
+            pend = 'roundtrip' if (e['ok'] and pend == 'none') else 'mixed'
+            if e['ok']:
+                acc['RoundTripAttrs'] = acc.get('RoundTripAttrs', 0) + 1
+        elif k == 'float' and e['ok']:
+            acc['FloatMeansEnergy'] = acc.get('FloatMeansEnergy', 0) + 1
+            if e['val'][0] != 0:
+                acc['FloatMeansEnergy(non-zero)'] = acc.get('FloatMeansEnergy(non-zero)', 0) + 1
+        elif k == 'sum' and e['ok']:
+            acc['ExtIsSumOfLsr'] = acc.get('ExtIsSumOfLsr', 0) + 1
 
 
 def _nontrivial(case):
@@ -601,76 +652,110 @@ def _signature(case):
 
 def run(ctx):
     ctx.coverage['rule'] = (
-        'tlc-case: every object of the small universe of MC_LsrCases (LSR: 2 slopes x 2 intercepts x 6 reactions '
-        'x 5 x 5 surf/gas parts; ExtendedLSR of 1..2 terms) at both temperatures, each continued by an evaluation '
-        'at the other temperature and a JSON round trip; tlc-beh: random behaviours of MC_Lsr_sim.cfg (<= 4 calls '
+        'tlc-case: the objects of the small universe of MC_LsrCases (LSR: 2 slopes x 2 intercepts x 6 reactions '
+        'x 5 x 5 surf/gas parts; ExtendedLSR of 1..2 terms) at both temperatures (quick: a random 1000 of the '
+        '8832), each continued by an evaluation '
+        'at the other temperature and a JSON round trip; tlc-beh: random behaviours of MC_Lsr_sim.cfg / MC_Lsr_ext_sim.cfg (<= 4 calls '
         'after construction); random: real-valued lives with 1..4 terms, constant / electronic / NASA species, '
         'include_ZPE, every unit system, 2..5 calls; non-trivial: at least one non-zero slope; distinct by '
         '(class, number of terms, forms of the parts, calls, species families, units, first slope, intercept)')
+    import time
+    t0 = time.time()
+    phases = ctx.coverage.setdefault('phase_wall_s', {})
     rnd = random.Random(ctx.seed)
     if ctx.replay_case is not None:
         cases = [ctx.replay_case['case']]
     else:
-        # (D) design models
-        ctx.model('MC_Lsr', 'MC_Lsr' if ctx.quick else 'MC_Lsr_big')
-        ctx.model('MC_Lsr', 'MC_Lsr_ext' if ctx.quick else 'MC_Lsr_ext_big')
-        for cfg, inv in (('MC_Lsr_tabledrift', 'RelationHolds'), ('MC_Lsr_unnamed', 'NeverRaises'),
-                         ('MC_Lsr_extslope', 'NeverRaises')):
-            r = ctx.model('MC_Lsr', cfg, workers=4, expect_ok=False)
-            if r.violated != inv:
+        # (D) design models, (S->C) case and behaviour generation: independent TLC runs, side by side
+        import concurrent.futures as cf
+        nsim = ctx.pick(200, 3000)
+        design = [('MC_Lsr' if ctx.quick else 'MC_Lsr_big', None), ('MC_Lsr_ext' if ctx.quick else 'MC_Lsr_ext_big', None),
+                  ('MC_Lsr_tabledrift', 'RelationHolds'), ('MC_Lsr_unnamed', 'NeverRaises'),
+                  ('MC_Lsr_extslope', 'NeverRaises')]
+        sims = ['MC_Lsr_sim', 'MC_Lsr_ext_sim']
+        with cf.ThreadPoolExecutor(max_workers=8) as ex:
+            fd = [ex.submit(core.run_tlc, 'MC_Lsr', cfg, workers=(6 if inv is None else 1), timeout=3000)
+                  for cfg, inv in design]
+            fc = ex.submit(core.tlc_cases, 'MC_LsrCases', 'MC_LsrCases')
+            fs = [ex.submit(core.run_tlc, 'MC_Lsr', cfg, workers=1, timeout=1500,
+                            extra=['-simulate', 'num=%d' % nsim, '-depth', '6', '-seed', str(ctx.seed + 1 + k)])
+                  for k, cfg in enumerate(sims)]
+            rd = [f.result() for f in fd]
+            data, rc = fc.result()
+            rs = [f.result() for f in fs]
+        phases['tlc_design_cases_behaviours'] = round(time.time() - t0, 1)
+        for (cfg, inv), r in zip(design, rd):
+            ctx.count('states', r.distinct)
+            ctx.count('transitions', r.states)
+            ctx.coverage.setdefault('models', []).append(
+                {'module': 'MC_Lsr', 'cfg': cfg, 'distinct_states': r.distinct, 'states_generated': r.states,
+                 'depth': r.depth, 'ok': r.ok, 'violated': r.violated, 'expected': inv or 'no error',
+                 'wall_s': round(r.wall, 1)})
+            if inv is None and not r.ok:
+                raise core.MachineryError('design model MC_Lsr/%s failed:\n%s' % (cfg, r.out[-4000:]))
+            if inv is not None and r.violated != inv:
                 raise core.MachineryError('%s must be rejected by %s, got %r:\n%s' % (cfg, inv, r.violated, r.out[-1500:]))
-        # (S->C) cases and behaviours computed by TLC
-        data, r = core.tlc_cases('MC_LsrCases', 'MC_LsrCases')
-        if not r.ok:
-            raise core.MachineryError('MC_LsrCases failed:\n' + r.out[-3000:])
-        ctx.coverage.setdefault('models', []).append(
-            {'module': 'MC_LsrCases', 'cfg': 'MC_LsrCases', 'ok': r.ok, 'cases': len(data),
-             'assumes': ['FloatMeansEnergy', 'ExtOfOneIsLsr', 'ExtIsSumOfLsr', 'ExtAdditive',
-                         'Evaluate(o, t).U = Required(o) for every case']})
+        if not rc.ok:
+            raise core.MachineryError('MC_LsrCases failed:\n' + rc.out[-3000:])
+        ctx.coverage['models'].append(
+            {'module': 'MC_LsrCases', 'cfg': 'MC_LsrCases', 'ok': rc.ok, 'cases': len(data), 'wall_s': round(rc.wall, 1),
+             'assumes': ['FloatMeansEnergy', 'ExtOfOneIsLsr(LsrObjs)', 'ExtIsSumOfLsr(CaseExt)',
+                         'ExtAdditive(ExtObjsN(1))', 'Evaluate(o, t).U = Required(o) for every case']})
         ctx.coverage['tlc_cases'] = len(data)
         lsr_cases = [c for c in data if c['obj']['kind'] == 'lsr']
         ext_cases = [c for c in data if c['obj']['kind'] == 'ext']
         rnd.shuffle(ext_cases)
         if ctx.quick:
             rnd.shuffle(lsr_cases)
-            lsr_cases = lsr_cases[:600]
-            ext_cases = ext_cases[:900]
-        else:
-            ext_cases = ext_cases[:8000]
+            lsr_cases = lsr_cases[:400]
+            ext_cases = ext_cases[:600]
         cases = [_tlc_case(c, i) for i, c in enumerate(lsr_cases + ext_cases)]
-        nsim = ctx.pick(600, 6000)
-        rs = core.run_tlc('MC_Lsr', 'MC_Lsr_sim', workers=1, timeout=1500,
-                          extra=['-simulate', 'num=%d' % nsim, '-depth', '6', '-seed', str(ctx.seed + 1)])
-        behs = [core.parse_tla(p)[1] for p in rs.prints() if core.tagged(p, 'BEH')]
-        if len(behs) < nsim // 2:
-            raise core.MachineryError('simulation produced too few behaviours (%d):\n%s' % (len(behs), rs.out[-2000:]))
+        behs = []
+        for cfg, r in zip(sims, rs):
+            got = [core.parse_tla(p)[1] for p in r.prints() if core.tagged(p, 'BEH')]
+            if len(got) < nsim // 2:
+                raise core.MachineryError('simulation %s produced too few behaviours (%d):\n%s' % (cfg, len(got), r.out[-2000:]))
+            behs += got
         ctx.coverage['tlc_simulated_behaviours'] = len(behs)
         cases += [_beh_case(h, i) for i, h in enumerate(behs)]
         # (C->S) random real-valued lives
-        cases += [_random_case(rnd, i) for i in range(ctx.pick(1500, 20000))]
+        cases += [_random_case(rnd, i) for i in range(ctx.pick(1000, 20000))]
+    t1 = time.time()
     results = core.pmap(execute, cases)
+    phases['execute'] = round(time.time() - t1, 1)
     traces = []
     for tid, (case, (events, mism, info)) in enumerate(zip(cases, results)):
         ctx.evaluated()
         if _nontrivial(case):
             ctx.nontrivial(_signature(case))
         for m in mism:
-            ctx.violation('ReplayState', case, tags=dict(_tags(case, None, m.get('raised')), step_op=m['op']), detail=m)
+            ctx.violation('ReplayState', case, tags=_tags(case, None, m.get('raised')), detail=dict(m, src=case.get('src')))
         traces.append((tid, events))
         if tid % 997 == 0:
             ctx.sample({k: v for k, v in case.items() if k != 'expect'})
+    t1 = time.time()
     fails, stats = core.validate_traces('Trace_Lsr', 'Trace', traces)
+    phases['trace_validation'] = round(time.time() - t1, 1)
     ctx.count('traces_validated_against_impl', len(traces))
     ctx.coverage['trace_lines'] = stats['lines']
     ctx.coverage['per_event'] = {}
+    ctx.coverage['clause_antecedents'] = {}
     for _, evs in traces:
+        _antecedents(evs, ctx.coverage['clause_antecedents'])
         for e in evs:
             ctx.coverage['per_event'][e['ev']] = ctx.coverage['per_event'].get(e['ev'], 0) + 1
     for tid, idx, clause in fails:
         case = cases[tid]
         events, _, info = results[tid]
         ctx.violation(clause, case, tags=_tags(case, events[idx], info[idx]),
-                      detail={'event_index': idx, 'event': events[idx], 'observed': info[idx]})
+                      detail={'event_index': idx, 'event': events[idx], 'observed': info[idx], 'src': case.get('src')})
+    # one violation of every (clause, tags) first, so that the replay files written cover every kind
+    seen, first, rest = set(), [], []
+    for v in ctx.violations:
+        k = (v['clause'], json.dumps(v['tags'], sort_keys=True))
+        (rest if k in seen else first).append(v)
+        seen.add(k)
+    ctx.violations[:] = first + rest
     ctx.assume('the energies of the parts (dE, E_surf, E_gas) are what the given Reaction / species objects report '
                'themselves through get_delta_E / get_E (get_delta_H / get_H when they have no electronic energy), '
                'as the docstring prescribes; a number stands for itself in kcal/mol')
